@@ -1,14 +1,17 @@
 #!/usr/bin/env python3
-# usage: tools_seed_prompts.py <round-root, e.g. /tmp/seed13> <theme-file>
+# usage: tools_seed_prompts.py <round-root, e.g. /tmp/seed13> <theme-file> [C01,C04,... (default: all)]
 # Writes <root>/prompt-Cxx.txt for the 20 properties from seeded/PROMPT_TEMPLATE.txt (the agents get the
 # property's text and their own worktree, nothing from /verif) and creates the worktrees <root>/wt-Cxx.
 import json, os, subprocess, sys
 root, theme = sys.argv[1], open(sys.argv[2]).read().strip()
 tmpl = open(os.path.join(os.path.dirname(os.path.abspath(__file__)), 'seeded', 'PROMPT_TEMPLATE.txt')).read()
+only = set(sys.argv[3].split(',')) if len(sys.argv) > 3 else None
 os.makedirs(root, exist_ok=True)
 for l in open('/verif/properties.jsonl'):
     d = json.loads(l)
     pid = d['id']
+    if only and pid not in only:
+        continue
     wt = f"{root}/wt-{pid}"
     prop = (f"TITLE: {d['title']}\nSTATEMENT: {d['statement']}\nQUANTIFIED OVER: {d['quantifier']['text']}\n"
             f"CODE MOST RELEVANT TO IT: {', '.join(d['anchors']['files'])}")
